@@ -11,6 +11,9 @@ CHECKS = {
  "C11": ("proof", "For each of the four status-word validators the error predicate is extracted from the typed syntax tree, accessors and from_buf byte placement are inlined, and its normal form over the 80 wire bits is compared with the protocol table (identifier constant, reserved mask, word-specific rule): equality of normal forms holds for all 2^80 values at once. Data-word rules (valid ID set, IB/OB lane maps, lane-active bit, connector-input limit, barrel dispatch) are decided on the full u8 identifier domain by constant folding of the extracted expressions. Obligations = one per documented condition/field/placement; all must be discharged.",
          "Trusted: rustc nightly front end, /verif/driver, fpv.thir (bit-level normal forms), oracles/its_words.json and dw_ids.json. Assumes little-endian target (read from the compiler session) and that packed layout = wire layout, which the placement obligations establish.",
          "bit-level abstract evaluation of THIR predicates to a normal form; equality with protocol mask tables; finite-domain constant folding for identifier maps", "DESIGN.md §3 C11"),
+ "C09": ("model_checking", "The implementation's transition table is extracted on every run from the typed syntax tree of ItsPayloadFsmContinuous::advance (state variants, identifier patterns under first-match semantics, guard bits, result word, successor state read from the typestate of the transition call) and explored exhaustively in product with the documented diagram (parsed from the .puml) over the full alphabet 256 identifiers x no_data x packet_done from the initial state: classification and successor must agree in every reachable product state, illegal identifiers must yield an error result in choice states. Also: sibling identifier sets (4 FSM arms, from_id) equal the documented set; the consumer table in CdpRunningValidator::check hands each result to the documented parser/error code. traces_validated_against_impl is 0 because the model IS the extracted implementation table (no hand-written model to validate).",
+         "Trusted: rustc nightly front end, /verif/driver, the extractor in fpv/rules/c09.py, oracles/fsm.json (refinement map only; the transition relation comes from the .puml). Known deviations F8a/F8b are listed in known_findings.json by exact (state, word, flag, successor) key.",
+         "table extraction from THIR match arms + exhaustive product exploration against the parsed state diagram", "DESIGN.md §3 C09"),
 }
 
 NOT_APPLICABLE = {
